@@ -11,8 +11,10 @@ PTRef UFTheory::preprocessBeforeSubstitutions(PTRef fla, PreprocessingContext co
 
 PTRef UFTheory::preprocessAfterSubstitutions(PTRef fla, PreprocessingContext const & context) {
     using namespace opensmt;
-    fla = context.frameCount == 0 ? rewriteDistinctsKeepTopLevel(getLogic(), fla)
-                               : rewriteDistincts(getLogic(), fla);
+    // The native handling of a top-level distinct is not tracked by the partition-based machinery (interpolants computed from
+    // theory lemmas over a kept distinct lose it), so it is used in whole-frame mode only
+    fla = (context.frameCount == 0 and not context.perPartition) ? rewriteDistinctsKeepTopLevel(getLogic(), fla)
+                                                                 : rewriteDistincts(getLogic(), fla);
     AppearsInUfVisitor(getLogic()).visit(fla);
     return fla;
 }
